@@ -43,6 +43,9 @@ func Parse(txt string) *spec.Grammar {
 		t := spec.Token{Decl: "token", Tag: "s"}
 		if strings.HasPrefix(w, "'") {
 			t.Lit = int(w[1])
+			if w == `'\''` {
+				t.Lit = '\''
+			}
 		} else {
 			t.Name = "T" + w
 		}
@@ -368,9 +371,10 @@ func OpTable(r *rand.Rand) *spec.Grammar {
 
 // RichCfg controls Rich.
 type RichCfg struct {
-	Names   bool // stress identifier shapes
-	IntTags bool // use all four union fields (s, t string; n, m int)
-	LongRhs bool // rules up to length 12
+	Names    bool // stress identifier shapes
+	IntTags  bool // use all four union fields (s, t string; n, m int)
+	LongRhs  bool // rules up to length 12
+	EOFAlias bool // sometimes declare a token with number -1 (alias of the end marker)
 }
 
 var nameShapes = []string{"x", "Tok", "_t", "t_1", "T9", "LongTokenNameWithManyLettersAndDigits0123456789", "tÄ", "ñandú", "Λ", "t__", "Z_z"}
@@ -607,6 +611,10 @@ func rich(r *rand.Rand, c RichCfg) *spec.Grammar {
 			}
 		}
 	}
+	// an alias of the end marker (the repository's own idiom: %token EOF -1)
+	if c.EOFAlias && r.Intn(3) == 0 {
+		g.Tokens = append(g.Tokens, spec.Token{Name: mkName("T", len(g.Tokens)) + "End", Num: -1, Decl: "token"})
+	}
 	// hostile explicit number: just above the largest code in use, i.e. inside the
 	// range from which the automatic codes will be drawn
 	if r.Intn(2) == 0 {
@@ -616,7 +624,7 @@ func rich(r *rand.Rand, c RichCfg) *spec.Grammar {
 			v := t.Num
 			if t.Name == "" {
 				v = t.Lit
-			} else {
+			} else if !t.IsEOFAlias() {
 				named = append(named, i)
 				if t.Num == 0 {
 					autos++
@@ -890,4 +898,20 @@ func Rings(r *rand.Rand) *spec.Grammar {
 	}
 	g.DefaultActs()
 	return g
+}
+
+// EscapeFamilies are grammars whose literals need escaping wherever yaccgo
+// copies symbol names into generated code (trace strings, comments).
+func EscapeFamilies() []*spec.Grammar {
+	src := []string{
+		"E: E '%' E | E '\"' E | '`' E | n",
+		"%left '%'; %left '\"'; E: E '%' E | E '\"' E | '$' E | '{' E '}' | n",
+		"S: '\\'' S '\\'' | '%' '%' | '<' S '>' | '!' | ",
+		"L: L ',' I | I; I: '%' n | ':' n | '#' '{' L '}'",
+	}
+	var res []*spec.Grammar
+	for _, s := range src {
+		res = append(res, Parse(s))
+	}
+	return res
 }
